@@ -147,7 +147,7 @@ def check_read(case, ctx):
     ctx.label("io=" + case["io"])
 
     if _stops_early(case, None):
-        ctx.exclude("#STOPS:; written before #BPMS or #OFFSET (the reader evaluates stops eagerly; candidate defect, see proposed_fixes/C02_stops_before_bpms.md)")
+        ctx.exclude("#STOPS:; tag written before #BPMS or #OFFSET (outside the quantifier 'texts without #STOPS'; the reader evaluates the tag eagerly against the tempo list and raises)")
 
     # ---- code under test ---------------------------------------------------
     ms = ctx.call("read", _read, case["io"], text)
@@ -200,7 +200,7 @@ def check_read(case, ctx):
 KNOWN_PREDICATES = {"stops_before_bpms": _stops_early}
 
 SUBS = [
-    Sub("read", check_read, strategy=case_st, examples={"quick": 260, "thorough": 2500}, shards={"quick": 8, "thorough": 16}),
+    Sub("read", check_read, strategy=case_st, examples={"quick": 260, "thorough": 2500}, shards={"quick": 8, "thorough": 16}, fuzz={"thorough": 150}),
 ]
 
 MANIFEST = dict(
